@@ -294,6 +294,15 @@ impl BudgetEngine {
                 if o.iterations > l.max_iterations {
                     push("budget-exceeded-on-success", format!("budget=iterations {} > {} ;; {}", o.iterations, l.max_iterations, ctx(o)));
                 }
+                // independent of the library's own counter: the reference evaluator knows how many
+                // productive iterations the program needs before its fixpoint
+                let needed = counts.len() as u64;
+                if needed > l.max_iterations && !with_limits {
+                    push(
+                        "budget-exceeded-on-success",
+                        format!("budget=iterations-needed the program needs {} productive iterations, the budget is {} ;; {}", needed, l.max_iterations, ctx(o)),
+                    );
+                }
                 if o.facts as u64 > l.max_facts {
                     push("budget-exceeded-on-success", format!("budget=facts {} > {} ;; {}", o.facts, l.max_facts, ctx(o)));
                 }
